@@ -20,8 +20,8 @@ from harness.c06_histogram import cut
 
 PROPERTY = "C04"
 B = h.bounds(
-    quick=dict(FLOW=3, BUF=3, HIST=4),
-    thorough=dict(FLOW=3, BUF=3, HIST=5),
+    quick=dict(FLOW=3, BUF=3, HIST=4, SRC=1),
+    thorough=dict(FLOW=3, BUF=3, HIST=5, SRC=3),
 )
 BRANCHES = ["user mutator (data list + context in place)", "Variable", "UpdateContext", "MakeFilename",
             "fill/compute: (mutator, StoreFilled)", "fill/compute: (Count as FillInto, StoreFilled)",
@@ -133,22 +133,43 @@ def same_multiset(got, want):
     return True
 
 
-def check_split_run(k0: int, k1: int, k2: int, bufsize: int, xs: List[int]) -> bool:
+class _SrcGen(object):
+    def __call__(self):
+        yield ("from source", {"s": 1})
+
+
+def check_split_run(k0: int, k1: int, k2: int, src: int, bufsize: int, xs: List[int]) -> bool:
     """
     pre: 0 <= k0 <= 6 and 0 <= k1 <= 6 and -1 <= k2 <= 1
+    pre: -1 <= src <= B.SRC
     pre: 1 <= bufsize <= B.BUF
     pre: len(xs) <= B.FLOW
-    pre: h.in_shard(k0 + 7 * (k1 % 4))
+    pre: h.in_shard(k0 + 7 * (k1 % 4) + 28 * (src + 1))
     post: _
     """
     k0 = h.concrete(k0, 0, 6)
     k1 = h.concrete(k1, 0, 6)
     k2 = h.concrete(k2, -1, 1)       # optional third branch: none | mutator | Variable
     kinds = [k0, k1] + ([k2] if k2 >= 0 else [])
+    # optional Source branch at position src (a Source reads nothing from the
+    # flow and yields its own values the first time it is reached)
+    src = h.concrete(src, -1, B.SRC)
+    if src > len(kinds):
+        src = len(kinds)
     with fast_jinja():
-        s = Split([make_branch(k, t) for t, k in enumerate(kinds)], bufsize=bufsize)
+        branches = [make_branch(k, t) for t, k in enumerate(kinds)]
+        if src >= 0:
+            branches.insert(src, lena.core.Source(_SrcGen()))
+        s = Split(branches, bufsize=bufsize)
         got = list(s.run(iter(mkflow(xs))))
         alones = [alone(k, t, mkflow(xs), bufsize) for t, k in enumerate(kinds)]
+    if src >= 0:
+        # the Source's own output: exactly once, untouched
+        mine = [v for v in got if isinstance(v, tuple) and len(v) == 2 and v[0] == "from source"]
+        if mine != [("from source", {"s": 1})]:
+            return h.ok(False)
+        # (where it appears is the schedule, C03's subject)
+        got = [v for v in got if not (isinstance(v, tuple) and len(v) == 2 and v[0] == "from source")]
     want = []
     nblocks = max([len(a[0]) for a in alones])
     for i in range(nblocks):
@@ -345,10 +366,11 @@ def check_accumulator(kind: int, ops: List[int], cs: List[int]) -> bool:
 
 
 CONDITIONS = [
-    dict(fn="check_split_run", shards=(28, 28), budget=(80, 900),
-         smoke=["check_split_run(0, 1, -1, 1, [3, 4])", "check_split_run(4, 0, -1, 2, [3, 4])",
-                "check_split_run(5, 3, 0, 2, [3])", "check_split_run(2, 2, -1, 1, [])", "check_split_run(6, 0, 1, 2, [3, 4])",
-                "check_split_run(6, 4, 0, 3, [3, 4, 5])"]),
+    dict(fn="check_split_run", shards=(84, 140), budget=(120, 600),
+         smoke=["check_split_run(0, 1, -1, -1, 1, [3, 4])", "check_split_run(4, 0, -1, -1, 2, [3, 4])",
+                "check_split_run(5, 3, 0, -1, 2, [3])", "check_split_run(2, 2, -1, -1, 1, [])", "check_split_run(6, 0, 1, -1, 2, [3, 4])",
+                "check_split_run(6, 4, 0, -1, 3, [3, 4, 5])", "check_split_run(0, 1, -1, 0, 1, [3, 4])",
+                "check_split_run(0, 0, 1, 1, 1, [3, 4])", "check_split_run(1, 0, -1, 1, 1, [3, 4])", "check_split_run(0, 2, -1, 1, 2, [])"]),
     dict(fn="check_split_fill", budget=(70, 600),
          smoke=["check_split_fill(4, 5, False, [3, 4])", "check_split_fill(4, 4, True, [3, 4])"]),
     dict(fn="check_accumulator", shards=(18, 18), budget=(190, 1500),
